@@ -55,6 +55,7 @@ type Ctx struct {
 	substMemo map[*smt.Term]*smt.Term
 	ModelHits int // decisions settled by evaluating the model instead of a solver query
 	NoModel   bool
+	pendingS  string
 	NoSimp    bool
 }
 
@@ -198,6 +199,7 @@ func (c *Ctx) Branch(cond *smt.Term) bool {
 	i := len(c.Trace)
 	if i < len(c.prefix) {
 		d := c.prefix[i]
+		c.pendingS = ""
 		c.Trace = append(c.Trace, d)
 		c.recordDecided(cond, d.Val == 1)
 		lit := cond
@@ -254,8 +256,9 @@ func (c *Ctx) Branch(cond *smt.Term) bool {
 	tOK, fOK := rt != smt.Unsat, rf != smt.Unsat
 	switch {
 	case tOK && fOK:
-		c.queue(Decision{Val: 0, N: 2}, mf)
-		c.Trace = append(c.Trace, Decision{Val: 1, N: 2})
+		c.queue(Decision{Val: 0, N: 2, S: c.pendingS}, mf)
+		c.Trace = append(c.Trace, Decision{Val: 1, N: 2, S: c.pendingS})
+		c.pendingS = ""
 		c.Lits = append(c.Lits, cond)
 		c.learn(cond)
 		c.recordDecided(cond, true)
@@ -267,7 +270,8 @@ func (c *Ctx) Branch(cond *smt.Term) bool {
 		c.Lits = append(c.Lits, cond)
 		c.learn(cond)
 		c.recordDecided(cond, true)
-		c.Trace = append(c.Trace, Decision{Val: 1, N: 2, Forced: true})
+		c.Trace = append(c.Trace, Decision{Val: 1, N: 2, Forced: true, S: c.pendingS})
+		c.pendingS = ""
 		c.levels = append(c.levels, c.Solver.Level())
 		c.setModelIfChanged(mt)
 		return true
@@ -275,7 +279,8 @@ func (c *Ctx) Branch(cond *smt.Term) bool {
 		c.Lits = append(c.Lits, ncond)
 		c.learn(ncond)
 		c.recordDecided(cond, false)
-		c.Trace = append(c.Trace, Decision{Val: 0, N: 2, Forced: true})
+		c.Trace = append(c.Trace, Decision{Val: 0, N: 2, Forced: true, S: c.pendingS})
+		c.pendingS = ""
 		c.levels = append(c.levels, c.Solver.Level())
 		c.setModelIfChanged(mf)
 		return false
@@ -462,6 +467,59 @@ func (c *Ctx) Choose(n int) int {
 	c.Trace = append(c.Trace, Decision{Val: 0, N: n})
 	c.levels = append(c.levels, c.Solver.Level())
 	return 0
+}
+
+// EnumerateFork makes t concrete by forking over its feasible values: each value gets
+// its own path (unlike Concretize, nothing is lost).
+func (c *Ctx) EnumerateFork(t *smt.Term, limit int) *smt.Term {
+	t = c.Simplify(t)
+	for n := 0; n < limit; n++ {
+		if t.IsConst() {
+			return t
+		}
+		var val *big.Int
+		if i := len(c.Trace); i < len(c.prefix) && c.prefix[i].S != "" {
+			val, _ = new(big.Int).SetString(c.prefix[i].S, 10)
+		} else {
+			if c.model == nil {
+				c.refreshModel()
+			}
+			ev := c.evalModel(t)
+			if ev == nil {
+				c.Queries++
+				r, err := c.Solver.Check(c.FeasMs)
+				if err != nil || r != smt.Sat {
+					abortf("unsupported: cannot enumerate the values of a symbolic term (%v)", r)
+				}
+				m, err := c.Solver.Values(append([]*smt.Term{t}, c.Vars...))
+				if err != nil {
+					abortf("solver error: %v", err)
+				}
+				val = m[fmt.Sprintf("t%d", t.ID)]
+				if t.Op == smt.OpVar {
+					val = m[t.Name]
+				}
+				c.setModel(m)
+			} else {
+				val = ev.Val
+			}
+		}
+		if val == nil {
+			abortf("unsupported: no model value for enumeration")
+		}
+		if t.Sort.K == smt.KBV && val.Sign() < 0 {
+			val = new(big.Int).And(val, new(big.Int).Sub(new(big.Int).Lsh(big.NewInt(1), uint(t.Sort.W)), big.NewInt(1)))
+		}
+		k := c.constOf(t, val)
+		// remember the candidate so that the replay of this decision tests the same value
+		c.pendingS = val.String()
+		if c.Branch(c.St.Eq(t, k)) {
+			return k
+		}
+		t = c.Simplify(t)
+	}
+	abortf("unsupported: more than %d feasible values in an enumeration", limit)
+	return nil
 }
 
 // ConcretizeIndex forks over the values 0..n-1 of idx (assumed in range).
